@@ -29,7 +29,11 @@ impl Digest for TDigest {
 struct PV(u8, u8);
 impl PartialOrd for PV {
     fn partial_cmp(&self, o: &Self) -> Option<Ordering> {
-        if self == o {
+        if self.0 == 8 || o.0 == 8 {
+            // the NaN-like element: partial_cmp is None even against itself (the method's own docs
+            // name f32::NAN as the motivating case); it still matches requirements, and nothing exceeds it
+            None
+        } else if self == o {
             Some(Ordering::Equal)
         } else if self.0 == 9 || o.0 == 9 {
             // the isolated element: incomparable to everything else (like NaN, but equal to itself)
@@ -43,7 +47,7 @@ impl PartialOrd for PV {
         }
     }
 }
-const DIAMOND: [PV; 5] = [PV(0, 0), PV(0, 1), PV(1, 0), PV(1, 1), PV(9, 9)];
+const DIAMOND: [PV; 6] = [PV(0, 0), PV(0, 1), PV(1, 0), PV(1, 1), PV(9, 9), PV(8, 8)];
 
 /// requirement = subset of the version domain (bitmask over domain index) + metadata predicate
 struct Req<V> {
@@ -161,9 +165,21 @@ fn sequences(alphabet: &[Kind], max_len: usize) -> Vec<Vec<Kind>> {
     out
 }
 
+/// the second acceptance path: a checksum inside a TOML document (what an inventory file is), read through serde
+fn serde_accepts<D: Digest>(s: &str) -> bool {
+    #[derive(Deserialize)]
+    #[serde(bound = "")]
+    struct W<D: Digest> {
+        #[allow(dead_code)]
+        c: Checksum<D>,
+    }
+    let text = format!("c = {}\n", toml::Value::String(s.to_string()));
+    toml::from_str::<W<D>>(&text).is_ok()
+}
+
 fn checksum_grammar(rep: &mut Reporter) -> (u64, u64) {
     // (1) 2-byte digest "t": all strings of length <= 7
-    let alpha = ['t', ':', 'a', 'F', '0', 'g', ' '];
+    let alpha = ['t', ':', 'a', 'F', '0', 'g', ' ', '\n'];
     let mut total = 0u64;
     let mut accepted = 0u64;
     let mut strings: Vec<String> = vec![String::new()];
@@ -180,19 +196,22 @@ fn checksum_grammar(rep: &mut Reporter) -> (u64, u64) {
         strings.extend(next.iter().cloned());
         level = next;
     }
-    let res: Vec<(bool, bool, &String)> = strings.par_iter().map(|s| {
+    let res: Vec<(bool, bool, bool, &String)> = strings.par_iter().map(|s| {
         let got = s.parse::<Checksum<TDigest>>().is_ok();
         let b = s.as_bytes();
         let want = b.len() == 6 && &b[..2] == b"t:" && b[2..].iter().all(|c| c.is_ascii_hexdigit());
-        (got, want, s)
+        (got, serde_accepts::<TDigest>(s), want, s)
     }).collect();
-    for (got, want, s) in res {
-        total += 1;
+    for (got, got_serde, want, s) in res {
+        total += 2;
         if got {
             accepted += 1;
         }
         if got != want {
             rep.violation(if got { "checksum:accepts-invalid" } else { "checksum:rejects-valid" }, format!("Checksum<2-byte digest 't'>::from_str({s:?}) accepted={got}, grammar says {want}"), json!({"checksum": s, "digest": "t"}));
+        }
+        if got_serde != want {
+            rep.violation(if got_serde { "checksum-serde:accepts-invalid" } else { "checksum-serde:rejects-valid" }, format!("Checksum<2-byte digest 't'> deserialised from a TOML string {s:?}: accepted={got_serde}, grammar says {want}"), json!({"checksum": s, "digest": "t"}));
         }
     }
     // (2) sha256 / sha512 around the valid lengths with single-position replacements
@@ -209,9 +228,16 @@ fn checksum_grammar(rep: &mut Reporter) -> (u64, u64) {
                             variants.push(b.into_iter().collect());
                         }
                     }
-                    for body in variants {
-                        let s = format!("{prefix}{sep}{body}");
+                    // decorations around an otherwise untouched string: leading/trailing white space
+                    let plain = format!("{prefix}{sep}{base}");
+                    let mut all: Vec<String> = variants.into_iter().map(|body| format!("{prefix}{sep}{body}")).collect();
+                    for ws in [" ", "\n", "\t", "\r\n", "\u{a0}"] {
+                        all.push(format!("{plain}{ws}"));
+                        all.push(format!("{ws}{plain}"));
+                    }
+                    for s in all {
                         let got = if is512 { s.parse::<Checksum<Sha512>>().is_ok() } else { s.parse::<Checksum<Sha256>>().is_ok() };
+                        let got_serde = if is512 { serde_accepts::<Sha512>(&s) } else { serde_accepts::<Sha256>(&s) };
                         // judged on the final string (a replacement may itself create the separator)
                         let want = s.strip_prefix(name).and_then(|r| r.strip_prefix(':')).map(|h| h.len() == hexlen && h.chars().all(|c| c.is_ascii_hexdigit())).unwrap_or(false);
                         total += 1;
@@ -220,6 +246,10 @@ fn checksum_grammar(rep: &mut Reporter) -> (u64, u64) {
                         }
                         if got != want {
                             rep.violation(if got { "checksum:accepts-invalid" } else { "checksum:rejects-valid" }, format!("Checksum<{name}>::from_str({s:?}) accepted={got}, grammar says {want}"), json!({"checksum": s, "digest": name}));
+                        }
+                        total += 1;
+                        if got_serde != want {
+                            rep.violation(if got_serde { "checksum-serde:accepts-invalid" } else { "checksum-serde:rejects-valid" }, format!("Checksum<{name}> deserialised from a TOML string {s:?}: accepted={got_serde}, grammar says {want}"), json!({"checksum": s, "digest": name}));
                         }
                     }
                 }
@@ -306,7 +336,7 @@ pub fn run(args: &Args) {
     let max_len = if args.thorough() { 5 } else { 4 };
     // (i) total order, versions {1,2,3}
     let k_total = kinds(3);
-    let k_partial = kinds(5);
+    let k_partial = kinds(6);
     let seq_total = sequences(&k_total, max_len);
     let seq_partial = sequences(&k_partial, if args.thorough() { 4 } else { 3 });
     let mut queries = 0u64;
@@ -317,7 +347,7 @@ pub fn run(args: &Args) {
     }).collect();
     queries += seq_total.len() as u64 * 2 * 16;
     let r2: Vec<_> = seq_partial.par_iter().map(|s| run_one(s, "partial_resolve(diamond)")).collect();
-    queries += seq_partial.len() as u64 * 64;
+    queries += seq_partial.len() as u64 * 128;
     for v in r1.into_iter().chain(r2).flatten() {
         rep.violation(&v.0, v.1, v.2);
     }
@@ -332,7 +362,7 @@ pub fn run(args: &Args) {
     rep.cov("toml_roundtrips", rt);
     let nontrivial = seq_total.iter().filter(|s| s.iter().filter(|k| k.class == 0).count() >= 2).count() as u64 + seq_partial.iter().filter(|s| s.iter().filter(|k| k.class == 0).count() >= 2).count() as u64;
     rep.cov("distinct_nontrivial", nontrivial);
-    rep.cov("rule", "all sequences (order matters) of <= L artifacts over {matching, wrong os, wrong arch} x versions x tagged, pushed through the real Inventory::push; for each, every requirement (subset of the version domain x metadata predicate) through resolve (total order 1<2<3), partial_resolve on the same, and partial_resolve on the 4-element diamond partial order; non-trivial = inventories with >= 2 os/arch-matching artifacts. Checksums: all strings of length <= 7 over {t : a F 0 g space} for a 2-byte digest 't', and prefix x separator x length x single-position replacement grids around 64/128 for Sha256/Sha512. TOML: inventories of <= 2 artifacts over payload urls x versions x os x arch x metadata");
+    rep.cov("rule", "all sequences (order matters) of <= L artifacts over {matching, wrong os, wrong arch} x versions x tagged, pushed through the real Inventory::push; for each, every requirement (subset of the version domain x metadata predicate) through resolve (total order 1<2<3), partial_resolve on the same, and partial_resolve on the 4-element diamond partial order extended by an isolated element and a NaN-like element (partial_cmp None even against itself); non-trivial = inventories with >= 2 os/arch-matching artifacts. Checksums: all strings of length <= 7 over {t : a F 0 g space LF} for a 2-byte digest 't', and prefix x separator x length x single-position replacement grids (plus leading/trailing white space) around 64/128 for Sha256/Sha512, each through BOTH acceptance paths (FromStr and serde deserialisation from a TOML document). TOML: inventories of <= 2 artifacts over payload urls x versions x os x arch x metadata");
     rep.cov("bound", json!({"max_inventory_len_total": max_len, "max_inventory_len_partial": if args.thorough() {4} else {3}, "artifact_kinds_total": k_total.len(), "artifact_kinds_partial": k_partial.len()}));
     rep.cov("exhaustive", true);
     rep.sample(json!({"inventory": seq_total[seq_total.len() - 1], "queries": "all 8 version subsets x 2 metadata predicates"}));
